@@ -35,6 +35,16 @@ class Opaque:
         return "<opaque %s>" % self.what
 
 
+class ModRef:
+    """Reference to another module of the package (from . import events)."""
+
+    def __init__(self, name):
+        self.name = name
+
+    def __repr__(self):
+        return "<module curtsies.%s>" % self.name
+
+
 class Lam:
     def __init__(self, node, env):
         self.node, self.env = node, env
@@ -146,7 +156,7 @@ class Folder:
                         except Unknown:
                             env[local] = TOP
                     elif st.level >= 1:
-                        env[local] = Opaque("module curtsies.%s" % a.name)
+                        env[local] = ModRef(a.name) if a.name in self.src.modules else Opaque("module curtsies.%s" % a.name)
                     elif st.module == "functools" and a.name == "partial":
                         env[local] = _PARTIAL
                     elif st.module == "itertools" and a.name == "chain":
@@ -357,6 +367,11 @@ class Folder:
             v = E(n.value)
             if v is itertools and n.attr == "chain":
                 return itertools.chain
+            if isinstance(v, ModRef):
+                menv = self.module(v.name)
+                if n.attr not in menv or menv[n.attr] is TOP:
+                    raise Unknown("attribute %s of %r" % (n.attr, v))
+                return menv[n.attr]
             if isinstance(v, Opaque):
                 raise Unknown("attribute %s of %r" % (n.attr, v))
             for ty, names in SAFE_METHODS.items():
@@ -414,7 +429,7 @@ class Folder:
 
     @staticmethod
     def _plain(v):
-        if isinstance(v, (Opaque, Lam, Partial)) or v is TOP:
+        if isinstance(v, (Opaque, Lam, Partial, ModRef)) or v is TOP:
             raise Unknown("opaque operand")
 
 
